@@ -3,6 +3,7 @@ import MsiProofs.Lemmas.RefineExact
 import MsiProofs.Lemmas.GlobalInv
 import MsiProofs.Lemmas.GlobalInvUpd
 import MsiProofs.Lemmas.SortUpd
+import MsiProofs.Lemmas.Lifecycle
 /-
 C08, as an invariant of the operations — reference counts stay exact.  `AccountedWith slack p cells`:
 for every pool entry, (number of cells referring to it) + slack = its reference count.  Insert and
@@ -78,5 +79,15 @@ example (ops : List MsiProofs.GlobalInvUpd.Op) :
     SortedAll (ops.foldl MsiProofs.GlobalInvUpd.Op.run s0) :=
   MsiProofs.SortUpd.history_sorted _ ops s0 s0_inv s0_sorted
 end
+
+/-- **exact accounting in every state reachable from `Package::create`** by statements on user
+tables, `create_table`, `drop_table` and saves: each pool entry's reference count equals the number
+of cells, over all tables incl. the catalog, that refer to it -/
+def created_history_exact := @MsiProofs.Lifecycle.created_history_exact
+/-- `create_table` / `drop_table` keep the counts exact (same slack) -/
+def createTable_full := @MsiProofs.CreateTable.createTable_full
+def dropTable_full := @MsiProofs.DropTable.dropTable_full
+/-- releasing a dropped table's strings: the other tables' cells stay accounted with the same slack -/
+def release_stage := @MsiProofs.DropTable.release_stage
 
 end MsiProofs.C08
